@@ -286,7 +286,7 @@ def run_waits(ctx, desc):
         nmt.state_update = cond
         # ---- wait_for_heartbeat returns on the matching message
         byte = rng.choice([5, 4, 127, 0, 0x85])
-        status, val = waits.run_waiter(lambda: nmt.wait_for_heartbeat(20), cond, lambda: rig.ext.send(0x700 + K, bytes([byte])))
+        status, val = waits.run_waiter(lambda: nmt.wait_for_heartbeat(4), cond, lambda: rig.ext.send(0x700 + K, bytes([byte])))
         ctx.count("wait_cases")
         ctx.case(("wait-heartbeat", byte))
         code = byte & 0x7F
@@ -305,11 +305,31 @@ def run_waits(ctx, desc):
             ctx.inconc(f"wait_for_heartbeat timeout: {status}", case)
         elif status != "raised" or not isinstance(val, NmtError):
             ctx.violation("wait-for-heartbeat-no-error", f"no heartbeat for node {K} arrived, wait_for_heartbeat ended {status} with {val!r}", case)
+        # ---- a heartbeat / boot-up received while nobody was waiting must not satisfy a later wait
+        for stale in (b"\x05", b"\x00"):
+            rig.ext.send(0x700 + K, stale)
+            status, val = waits.run_waiter(lambda: nmt.wait_for_heartbeat(0.03), cond, None)
+            ctx.count("wait_cases")
+            ctx.case(("wait-heartbeat-after-stale", stale[0]))
+            if status in ("hung", "never-waited"):
+                ctx.inconc(f"wait_for_heartbeat after stale: {status}", case)
+            elif status != "raised" or not isinstance(val, NmtError):
+                ctx.violation("wait-for-heartbeat-satisfied-by-earlier-message", f"heartbeat {stale.hex()} arrived before the wait started and nothing after; "
+                              f"wait_for_heartbeat ended {status} with {val!r} instead of NmtError", case)
+            rig.ext.send(0x700 + K, b"\x00")
+            status, val = waits.run_waiter(lambda: nmt.wait_for_bootup(0.03), cond, None)
+            ctx.count("wait_cases")
+            ctx.case(("wait-bootup-after-stale", stale[0]))
+            if status in ("hung", "never-waited"):
+                ctx.inconc(f"wait_for_bootup after stale: {status}", case)
+            elif status != "raised" or not isinstance(val, NmtError):
+                ctx.violation("wait-for-bootup-satisfied-by-earlier-message", f"boot-up arrived before the wait started and nothing after; "
+                              f"wait_for_bootup ended {status} with {val!r} instead of NmtError", case)
         # ---- wait_for_bootup: a plain heartbeat first, then the boot-up
         done = {}
 
         def waiter():
-            nmt.wait_for_bootup(20)
+            nmt.wait_for_bootup(4)
             return "ok"
 
         def deliver():
